@@ -172,9 +172,29 @@ class Run:
             return False
         return True
 
+    INFRA_RC = (124, 125, 126, 127, 137)
+
+    def run_drv(self, v, args, what, **kw):
+        """Run the driver of variant v.  A missing binary (cache cleaned by a concurrent build) is rebuilt;
+        exec failures / timeouts are infrastructure (inconclusive), never a finding.  Returns (rc, out, err)
+        with rc None when there is no verdict."""
+        for attempt in (0, 1):
+            b = self.drv[v]
+            if not os.path.exists(b):
+                b = self.drv[v] = vlib.harness("drv_bash", ["drv_bash.c"], v)
+            rc, out, err = vlib.run_harness(b, args, **kw)
+            if rc not in self.INFRA_RC:
+                return rc, out, err
+            if rc in (124, 137) or os.path.exists(b):
+                break
+        self.ctx.note_inconclusive("driver %s (%s) could not be run / timed out (rc=%s): %s" % (v, what, rc, (err or "")[-200:]))
+        return None, out, err
+
     def record(self, v, what, stdin=None, timeout=600):
         p = self.ctx.path("rec_%s_%s.ndjson" % (what, v))
-        rc, _, err = vlib.run_harness(self.drv[v], ["record", what, self.tier], stdin=stdin, out_path=p, env=self.env, timeout=timeout)
+        rc, _, err = self.run_drv(v, ["record", what, self.tier], "record " + what, stdin=stdin, out_path=p, env=self.env, timeout=timeout)
+        if rc is None:
+            return []
         rows = []
         try:
             rows = [json.loads(l) for l in open(p) if l.strip().endswith("}")]
@@ -341,8 +361,10 @@ class Run:
         agg = self.ev.cov.setdefault("replayed_commands_by_op", {})
         for k, n in opcount.items():
             agg[k] = agg.get(k, 0) + n * len(self.drv)
-        for v, b in self.drv.items():
-            rc, out, err = vlib.run_harness(b, ["replay"], stdin=script, timeout=1200)
+        for v in list(self.drv):
+            rc, out, err = self.run_drv(v, ["replay"], "replay " + name, stdin=script, timeout=1800)
+            if rc is None:
+                continue
             res = [json.loads(l) for l in out.splitlines() if l.strip().endswith("}")]
             if rc != 0:
                 last = res[-1]["id"] if res else "(first case)"
@@ -390,7 +412,9 @@ class Run:
         bad1 = case_to_script(c)
         c2 = json.loads(json.dumps(byfirst(cases)))
         c2["hist"][-1]["pos"] = (c2["hist"][-1]["pos"] + 1) % 192
-        rc, out, _ = vlib.run_harness(self.drv["rel"], ["replay"], stdin=(good + bad1 + case_to_script(c2)).encode(), timeout=120)
+        rc, out, _ = self.run_drv("rel", ["replay"], "replay self-test", stdin=(good + bad1 + case_to_script(c2)).encode(), timeout=120)
+        if rc is None:
+            return
         res = [json.loads(l) for l in out.splitlines() if l.strip().endswith("}")]
         verdicts = [x.get("ok") for x in res]
         self.ev.cov["selftest_replay_verdicts"] = verdicts
@@ -401,9 +425,11 @@ class Run:
     def scripts(self, nscripts, length, shards):
         ctx = self.ctx
         files = {}
-        for v, b in self.drv.items():
+        for v in list(self.drv):
             p = ctx.path("scripts_%s.ndjson" % v)
-            rc, _, err = vlib.run_harness(b, ["scripts", nscripts, length], out_path=p, env=self.env, timeout=600)
+            rc, _, err = self.run_drv(v, ["scripts", nscripts, length], "scripts", out_path=p, env=self.env, timeout=600)
+            if rc is None:
+                continue
             if rc != 0:
                 ctx.violation("scripts-crash:" + v, "bashPrg* crashed in a random script (variant %s, rc=%d): %s" % (v, rc, err[-600:]))
                 continue
